@@ -1,4 +1,6 @@
 import Proofs.C15
+import Proofs.TieWrap
+import Proofs.TieSite
 #print axioms PV.Proofs.C15.declared_wrap_constants
 #print axioms PV.Proofs.C15.wrap_range
 #print axioms PV.Proofs.C15.wrap_congr
@@ -13,3 +15,9 @@ import Proofs.C15
 #print axioms PV.Proofs.C15.positions_spec
 #print axioms PV.Proofs.C15.site_lattice_invariant
 #print axioms PV.Proofs.C15.tables_integral
+#print axioms PV.Proofs.Tie.declared_translated_wrap
+#print axioms PV.Proofs.Tie.periodic_position_tie
+#print axioms PV.Proofs.Tie.declared_translated_site
+#print axioms PV.Proofs.Tie.site_transform_tie
+#print axioms PV.Proofs.Tie.site_multiplicity_tie
+#print axioms PV.Proofs.Tie.site_positions_tie
